@@ -49,6 +49,7 @@ func TestCheck(t *testing.T) {
 		"old-layout databases are produced with the frozen legacy writer migration/blocktransactions/txlayout (TransactionLayoutPerTx) and commitments without StateDiffLength",
 		"blocktransactions commit orders: each ingest range in its own batch, all orders; batches holding several ranges produce a subset of these crash images",
 		"cancel-at-read injections race with the source goroutine (free-running after the injection); outcomes are checked, not the exact emission count",
+		"statedifflength: the assignment of blocks to the per-worker batches follows two release policies (lowest / highest parked block first), not all assignments; its writes are per-block idempotent",
 		"the optional migrations historyprunner/headstate are represented by disabled placeholders in part b; their flag combinations are covered on the runner in part a",
 	)
 	checkProductionRegistry(r)
@@ -93,16 +94,16 @@ func TestCheck(t *testing.T) {
 		defer wg.Done()
 		t0 := time.Now()
 		failDepth = ev.Pick(r, 2, 99)
-		exploreRunner(r, ev.Pick(r, 3, 5), max(2, ncpu/4))
+		exploreRunner(r, ev.Pick(r, 3, 4), max(2, ncpu/4))
 		r.Set("a_wall_s", time.Since(t0).Seconds())
 	}()
-	exploreShapes(bc, shapes, all, ev.Pick(r, few, all), 2, true, ncpu)
+	exploreShapes(bc, shapes, all, ev.Pick(r, few, all), 2, r.Thorough(), ncpu)
 	wg.Wait()
 	r.Set("b_shapes", int64(len(shapes)))
 	r.Set("b_distinct_final_images", int64(len(bc.fin)))
 	r.Set("distinct_nontrivial", r.Get("states"))
 	r.Set("traces_validated_against_impl", r.Get("evaluations"))
 	r.Set("rule", "a: BFS over (durable image, completed set): every process start = registry (1..4 migrations x optional flags) x one scripted outcome per Migrate/Before call (19 outcomes) x crash after / failure of every commit; "+
-		"b: BFS over durable images of old-layout chains: every commit order of the ingest ranges x {uninterrupted, crash after each commit, cancel at each commit, cancel at first read of each range, cancel before run, failure of each commit}, <=2 interruptions then a clean run; non-trivial = distinct durable images")
+		"b: BFS over durable images of old-layout chains: every commit order of the ingest ranges x {uninterrupted, crash after each commit, cancel at each commit, cancel at first read of each range, cancel before run, failure of each commit}, <=2 interruptions then a clean run (quick tier: second interruption restricted to crash / cancel-at-commit and 2 commit orders; runner BFS depth 3 quick / 4 thorough process starts); non-trivial = distinct durable images")
 	r.Finish()
 }
